@@ -60,12 +60,19 @@ def quiet_logging():
     lg.setLevel(logging.DEBUG if os.environ.get("VF_LOG_DEBUG") == "1" else logging.CRITICAL)
 
 
-def load_orchestrator(name="orch"):
-    """Load nextflow/scripts/batchie.py of the tree under test as a module."""
+def load_orchestrator(name="orch", optimize=None):
+    """Load nextflow/scripts/batchie.py of the tree under test as a module.  optimize=1 compiles it the way
+    `python -O batchie.py` would (assert statements stripped); None follows the running interpreter."""
+    import types
+
     path = os.path.join(REPO, "nextflow", "scripts", "batchie.py")
-    spec = importlib.util.spec_from_file_location(name, path)
-    mod = importlib.util.module_from_spec(spec)
-    spec.loader.exec_module(mod)
+    with open(path, encoding="utf-8") as f:
+        src = f.read()
+    code = compile(src, path, "exec", optimize=-1 if optimize is None else int(optimize), dont_inherit=True)
+    mod = types.ModuleType(name)
+    mod.__file__ = path
+    sys.modules[name] = mod
+    exec(code, mod.__dict__)
     mod.logger.handlers[:] = []
     mod.logger.setLevel(logging.CRITICAL)
     mod.logger.propagate = False
